@@ -29,9 +29,10 @@ RULE = ('(a) atheris coverage-guided fuzzing (16 independent processes, empty co
         'keywords/operators, max_len 256) plus Hypothesis: arbitrary Unicode text, texts from hostile atoms, every truncation of '
         'valid programs at token boundaries, one-token mutations, unbalanced brackets, unterminated strings - each given to parse, '
         'list(list_names()) and eval; (b) Hypothesis placed failures: typed programs with one position replaced by an undefined '
-        'variable read, undefined function (call / method / pipe), compound assignment to an undefined target, missing dict key, '
+        'variable read, undefined function (call / method / pipe), compound assignment to an undefined target, missing dict key '
+        '(string, decimal, integral, huge, bool, None, list, infinite and NaN keys), '
         'out-of-range list/string index, pop on an empty list, element-adding at the 10000 cap, or the budget set to the number '
-        'of operations needed. Oracle in the module docstring. Non-trivial: (a) a rejected input with >= 3 tokens, (b) every case '
+        'of operations needed. Every other job runs while a newer, never-used SqParser exists in the process. Oracle in the module docstring. Non-trivial: (a) a rejected input with >= 3 tokens, (b) every case '
         'whose reference run ends in the placed language-level failure; distinct by text.')
 ASSUMPTIONS = ['RecursionError / MemoryError on pathologically deep or large valid programs are ordinary Exceptions (allowed)',
                'libFuzzer seeds pin a campaign only approximately; the saved input is the reproducible unit and the Hypothesis '
@@ -39,6 +40,7 @@ ASSUMPTIONS = ['RecursionError / MemoryError on pathologically deep or large val
 
 _parser = None
 _cached = None
+_BYSTANDER = {'want': False, 'kept': []}
 
 
 def parser(cached=False):
@@ -50,6 +52,10 @@ def parser(cached=False):
         return _cached
     if _parser is None:
         _parser = SqParser()
+    if _BYSTANDER['want'] and not _BYSTANDER['kept']:
+        # the host owns several parsers: one more is constructed after the others and never used
+        parser(True)
+        _BYSTANDER['kept'].append(SqParser())
     return _parser
 
 
@@ -129,6 +135,16 @@ FAIL_EXPRS = {
     'undefined-pipe': lambda: ('Call', 'nopipe9', [('Name', 'xs')], 'pipe'),
     'missing-key': lambda: ('Call', '__getitem__', [('Dict', [(('Val', 'a'), ('Val', typed.D('1')))], ''), ('Val', 'zz')], 'idx'),
     'missing-key-var': lambda: ('Call', '__getitem__', [('Name', 'dd'), ('Val', 'no such key')], 'idx'),
+    'missing-key-inf': lambda: ('Call', '__getitem__', [('Name', 'dd'), ('Call', 'float', [('Val', 'inf')], 'call')], 'idx'),
+    'missing-key-neg-inf': lambda: ('Call', '__getitem__', [('Dict', [(('Val', 'a'), ('Val', typed.D('1')))], ''),
+                                                          ('Un', '-', ('Call', 'float', [('Val', 'Infinity')], 'call'))], 'idx'),
+    'missing-key-nan': lambda: ('Call', '__getitem__', [('Name', 'dd'), ('Call', 'float', [('Val', 'nan')], 'call')], 'idx'),
+    'missing-key-huge': lambda: ('Call', '__getitem__', [('Name', 'dd'), ('Bin', '**', ('Val', typed.D('10')), ('Val', typed.D('40')))], 'idx'),
+    'missing-key-bool': lambda: ('Call', '__getitem__', [('Name', 'dd'), ('Val', True)], 'idx'),
+    'missing-key-none': lambda: ('Call', '__getitem__', [('Name', 'dd'), ('Val', None)], 'idx'),
+    'missing-key-list': lambda: ('Call', '__getitem__', [('Name', 'dd'), ('Call', 'list', [('Val', typed.D('1'))], 'lit')], 'idx'),
+    'missing-key-decimal': lambda: ('Call', '__getitem__', [('Name', 'dd'), ('Val', typed.D('2.50'))], 'idx'),
+    'missing-key-integral': lambda: ('Call', '__getitem__', [('Name', 'dd'), ('Val', typed.D('7.0'))], 'idx'),
     'list-index': lambda: ('Call', '__getitem__', [('Call', 'list', [('Val', typed.D('1'))], 'lit'), ('Val', typed.D('5'))], 'idx'),
     'list-index-negative': lambda: ('Call', '__getitem__', [('Call', 'list', [('Val', typed.D('1'))], 'lit'), ('Un', '-', ('Val', typed.D('4')))], 'idx'),
     'string-index': lambda: ('Call', '__getitem__', [('Val', 'abc'), ('Val', typed.D('7'))], 'idx'),
@@ -248,7 +264,7 @@ def run_placed(case):
     p = parser()
     info = {'reached': False, 'discard': False}
     try:
-        tree = neutral(p.parse(src))
+        tree = refparse.parse_text(src)     # the reference runs on the tree the grammar derives, not on the implementation's
     except Exception:  # noqa
         info['discard'] = True
         return [], info
@@ -419,6 +435,7 @@ def fuzz_job(seed, seconds, use_corpus, max_len=256):
             for f in glob.glob(os.path.join(CORPUS_DIR, '*')):
                 shutil.copy(f, corp)
         env = dict(os.environ)
+        env['SQV_C16_BYSTANDER'] = '1' if seed % 2 == 0 else '0'
         cmd = [sys.executable, '-m', 'sqv.fuzz_c16', art, corp, f'-max_total_time={seconds}', f'-seed={max(1, seed % (2 ** 31))}',
                f'-max_len={max_len}', '-print_final_stats=0', '-verbosity=0', f'-artifact_prefix={art}/',
                f'-dict={os.path.join(core.VERIF, "corpus", "c16.dict")}']
@@ -502,6 +519,8 @@ def run_job(job):
                 st.fail(fl)
         return st
     _, seed, n = job
+    _BYSTANDER['want'] = seed % 2 == 0
+    st.case(key='bystander:' + str(seed), nontrivial=False, classes=('host:unused-newer-parser-present' if seed % 2 == 0 else 'host:single-parser-pair',))
     if job[0] == 'text':
         def check(case):
             fails, info = judge_text(case['text'], case, st)
@@ -522,7 +541,7 @@ def run_job(job):
             # budget = number of operations needed minus a drawn amount (at least 1)
             import copy
             try:
-                tree = neutral(parser().parse(case['src']))
+                tree = refparse.parse_text(case['src'])
             except Exception:  # noqa
                 return hyp.Result(discard=True)
             out, interp = refsem.run(tree, copy.deepcopy(core.dec(case['env'])))
